@@ -29,6 +29,11 @@ def scenarios(rng, quick):
             # writing under the final name - the earlier complete file of that name stays as it is at every crash point
             S.append(("part-unopenable/" + comp, base + q(1, pad) + " R:nm:1 " + q(2, pad) + " W R:nm:0 " + q(3, pad) + " W D",
                       {"s0_o1" + sfx: "0102030405", "DIR:s0_o1" + sfx + ".part": ""}))
+            if comp == "n":
+                # an output whose NAME ends in ".part": its temporary name is '<name>.part' all the same, and the file of that name
+                # left by an earlier run stays intact until the new one is complete
+                S.append(("name-ends-in-part/" + comp, "NM:.part " + base + q(1, pad) + " R:nm:1 " + q(2, pad) + " W D",
+                          {"s0_o0.part": "0102030405", "s0_o1.part": "0607"}))
             S.append(("rotate-after-flush/" + comp, base + " ".join(q(i, pad) for i in range(1, 4)) + " R:nm:1 " + q(5, pad) + " W R:nm:0 " + q(6, pad) + " D", {}))
     if not quick:
         for i in range(280):
@@ -40,6 +45,11 @@ def scenarios(rng, quick):
             toks.append("D")
             S.append(("random/" + comp, " ".join(toks), {}))
     return S
+
+
+def is_temp(scenario, fname):
+    """is this the name of a temporary file?  (the scenario whose output names themselves end in '.part': only '<name>.part.part')"""
+    return fname.endswith(".part.part") if scenario.startswith("name-ends-in-part") else fname.endswith(".part")
 
 
 def files_of(ans):
@@ -174,7 +184,7 @@ def check(run):
             continue
         comp = name.split("/")[1]
         for fname, content in files_of(ans).items():
-            if fname.endswith(".part") or pre.get(fname) == content or content == "-":
+            if is_temp(name, fname) or pre.get(fname) == content or content == "-":
                 continue
             data, err = E.decompress(content, comp)
             if data is None:
@@ -209,7 +219,7 @@ def check(run):
             continue
         found = files_of(ans)
         for fname, content in found.items():
-            if fname.endswith(".part"):
+            if is_temp(name, fname):
                 continue
             allowed = {pre.get(fname), final.get(fname)}
             if content not in allowed:
@@ -247,7 +257,7 @@ def check(run):
         run.count("fault/" + name.split("/")[0])
         comp = name.split("/")[1]
         for fname, content in files_of(ans).items():
-            if fname.endswith(".part") or content == "-" or pre.get(fname) == content:
+            if is_temp(name, fname) or content == "-" or pre.get(fname) == content:
                 continue
             data, err = E.decompress(content, comp)
             if data is None:
